@@ -185,22 +185,25 @@ class Check(DiffCheck):
     # ---------------------------------------------------------------- generators
     def gen_rm(self, tier, rng):
         cs = []
-        U = 6
-        muts = []
-        for l in range(U):
-            for r in range(l + 1, U + 1):
-                muts.append('a:%d:%d' % (l, r)); muts.append('r:%d:%d' % (l, r))
-        muts += ['a:2:2', 'a:3:1', 'r:2:2', 'r:4:1', 'c'] + ['f:%d' % o for o in range(U)]
-        allq = ','.join('%d:%d' % (l, r) for l in range(U + 1) for r in range(U + 1))
-        maxlen = 3 if tier == 'quick' else 3
-        for n in range(1, maxlen + 1):
-            for seq in itertools.product(muts, repeat=n):
-                cs.append('RM %s %s' % (','.join(seq), allq))
+        def family(U):
+            muts = []
+            for l in range(U):
+                for r in range(l + 1, U + 1):
+                    muts.append('a:%d:%d' % (l, r)); muts.append('r:%d:%d' % (l, r))
+            muts += ['a:2:2', 'a:3:1', 'r:2:2', 'r:4:1', 'c'] + ['f:%d' % o for o in range(U)]
+            allq = ','.join('%d:%d' % (l, r) for l in range(U + 1) for r in range(U + 1))
+            return muts, allq
+        # all sequences of <= 2 mutators over [0,6), of 3 over [0,5) (quick) / [0,6) (thorough), each followed by every query
+        for (U, lens) in (((6, (1, 2)), (5, (3,))) if tier == 'quick' else ((6, (1, 2, 3)),)):
+            muts, allq = family(U)
+            for n in lens:
+                for seq in itertools.product(muts, repeat=n):
+                    cs.append('RM %s %s' % (','.join(seq), allq))
         if tier != 'quick':
-            small = [m for m in muts if m[0] in 'ar' and m not in ('a:2:2', 'a:3:1', 'r:2:2', 'r:4:1')]
-            small = [m for m in small if int(m.split(':')[2]) <= 5][:30] + ['f:2']
+            muts, allq = family(5)
+            small = [m for m in muts if m[0] in 'ar' and int(m.split(':')[1]) < int(m.split(':')[2])] + ['f:2']
             for seq in itertools.product(small, repeat=4):
-                cs.append('RM %s %s' % (','.join(seq), allq))
+                if rng.random() < 0.25: cs.append('RM %s %s' % (','.join(seq), allq))
         nrand = 4000 if tier == 'quick' else 100000
         for _ in range(nrand):
             big = rng.random() < 0.15
